@@ -259,6 +259,73 @@ class _OffsetWalker(Walker):
     pass
 
 
+def _prefix_slices(tp):
+    """The mask cut at the row-group boundaries without a running cursor:
+        selected = [sel[LO:HI] for a, b in zip(X, Y)]
+    where, with L = the row counts of `rgs` in order, P = their prefix sums (P[i] = L[0] + .. + L[i-1]), the bounds
+    are LO = P[i], HI = P[i+1].  Recognised spellings: accumulate(L, initial=0) is P[0..n]; accumulate(L) and P[1:] are
+    P[1..n]; b - a for (a: L[i], b: P[i+1]) is P[i]; a + b for (a: P[i], b: L[i]) is P[i+1].  Returns (found, ok, detail)."""
+    defs = {}
+    for st in walk_no_nested(tp):
+        if isinstance(st, ast.Assign) and len(st.targets) == 1 and isinstance(st.targets[0], ast.Name):
+            defs.setdefault(st.targets[0].id, []).append(st.value)
+
+    def is_len(e, depth=0):
+        if isinstance(e, ast.Name) and len(defs.get(e.id, [])) == 1 and depth < 3:
+            return is_len(defs[e.id][0], depth + 1)
+        if isinstance(e, ast.Call) and callee(e) in ('list', 'tuple') and len(e.args) == 1:
+            return is_len(e.args[0], depth)
+        return isinstance(e, (ast.ListComp, ast.GeneratorExp)) and len(e.generators) == 1 and not e.generators[0].ifs \
+            and norm(e.generators[0].iter) in ('rgs', 'rgs[:]') and isinstance(e.generators[0].target, ast.Name) \
+            and norm(e.elt) == '%s.num_rows' % e.generators[0].target.id
+
+    def seq(e, depth=0):
+        # 'LEN' = L, 'P0' = P[0..n], 'P1' = P[1..n]
+        if is_len(e):
+            return 'LEN'
+        if isinstance(e, ast.Name) and len(defs.get(e.id, [])) == 1 and depth < 3:
+            return seq(defs[e.id][0], depth + 1)
+        if isinstance(e, ast.Call) and callee(e) in ('list', 'tuple') and len(e.args) == 1:
+            return seq(e.args[0], depth)
+        if isinstance(e, ast.Call) and (callee(e) or '').split('.')[-1] == 'accumulate' and e.args and is_len(e.args[0]) and len(e.args) == 1:
+            kws = {k.arg: k.value for k in e.keywords}
+            if not kws:
+                return 'P1'
+            if set(kws) == {'initial'} and isinstance(kws['initial'], ast.Constant) and kws['initial'].value == 0:
+                return 'P0'
+            return None
+        if isinstance(e, ast.Subscript) and isinstance(e.slice, ast.Slice) and norm(e.slice) == '1:' and seq(e.value, depth) == 'P0':
+            return 'P1'
+        return None
+    for st in walk_no_nested(tp):
+        if not (isinstance(st, ast.Assign) and len(st.targets) == 1 and norm(st.targets[0]) == 'selected' and isinstance(st.value, ast.ListComp)):
+            continue
+        c = st.value
+        if len(c.generators) != 1 or c.generators[0].ifs:
+            return True, False, norm(c)[:120]
+        g = c.generators[0]
+        if not (isinstance(g.iter, ast.Call) and callee(g.iter) == 'zip' and len(g.iter.args) == 2 and isinstance(g.target, ast.Tuple)
+                and len(g.target.elts) == 2 and all(isinstance(t, ast.Name) for t in g.target.elts)):
+            return True, False, norm(c)[:120]
+        kinds = [seq(a) for a in g.iter.args]
+        # (zip stops at the shorter sequence: P[0..n] paired with something of length n stands for P[0..n-1])
+        env = {t.id: {'LEN': 'LEN', 'P0': 'PRE', 'P1': 'POST'}.get(k) for t, k in zip(g.target.elts, kinds)}
+
+        def val(e):
+            if isinstance(e, ast.Name):
+                return env.get(e.id)
+            if isinstance(e, ast.BinOp) and isinstance(e.op, ast.Sub) and val(e.left) == 'POST' and val(e.right) == 'LEN':
+                return 'PRE'
+            if isinstance(e, ast.BinOp) and isinstance(e.op, ast.Add) and {val(e.left), val(e.right)} == {'PRE', 'LEN'}:
+                return 'POST'
+            return None
+        e = c.elt
+        ok = isinstance(e, ast.Subscript) and norm(e.value) == 'sel' and isinstance(e.slice, ast.Slice) and e.slice.step is None \
+            and e.slice.lower is not None and e.slice.upper is not None and val(e.slice.lower) == 'PRE' and val(e.slice.upper) == 'POST'
+        return True, bool(ok), '%s with %s' % (norm(c)[:100], kinds)
+    return False, False, ''
+
+
 def r134(ctx, m):
     tp = m.func('ParquetFile.to_pandas')
     # selection loop
@@ -271,10 +338,14 @@ def r134(ctx, m):
         body = [norm(x) for x in l.body]
         ok = norm(l.iter) in ('rgs[:]', 'rgs') and body == ['selected.append(sel[start:start + rg.num_rows])', 'start += rg.num_rows']
         d = 'for %s in %s: %s' % (norm(l.target), norm(l.iter), body)
+    prefix_form = False
+    if not sel_loop:
+        # (no running cursor: the slices are cut at prefix sums of the row counts)
+        prefix_form, ok, d = _prefix_slices(tp)
     ctx.ob('R13.4', 'api.to_pandas:mask-sliced-by-cumulative-row-group-sizes', ok, d, m.loc(sel_loop[0]) if sel_loop else m.loc(tp))
     # start reset before each loop
     zero = [s for s in iter_child_stmts(tp.body) if isinstance(s, ast.Assign) and norm(s) == 'start = 0']
-    ctx.ob('R13.4', 'api.to_pandas:cursor-reset-before-each-pass', len(zero) == 2, '%d resets' % len(zero), m.loc(tp))
+    ctx.ob('R13.4', 'api.to_pandas:cursor-reset-before-each-pass', len(zero) == (1 if prefix_form else 2), '%d resets' % len(zero), m.loc(tp))
     # custom mask validated
     val = [s for s in iter_child_stmts(tp.body) if isinstance(s, ast.If)
            and norm(s.test) == 'sum((rg.num_rows for rg in rgs)) != len(row_filter)']
